@@ -182,6 +182,35 @@ Proof.
 Qed.
 Print Assumptions C01_end_to_end_range_xxhash.
 
+(* ... and for block sizes up to 128 MiB the frame-size premise is a theorem (Proofs/RangeSizeProofs.v: the normalisation loop
+   shifts at most twice per byte, a chunk header has fewer than 4617 bits), so nothing is left but the configuration *)
+From KV Require Import Proofs.RangeSizeProofs Proofs.EndToEndRangeFits.
+Theorem C01_end_to_end_range_128M_xxhash : forall (evalid tvalid : N -> bool) c jw hw jr hr
+    (ws : list (list N)) (ns : list N) nframes rbuf sched,
+  cfg_ok evalid tvalid c -> h_etype c = RANGE_TYPE -> (h_bsize c <= 134217728)%N ->
+  bytes_ok (concat ws) -> (length (concat ws) < nframes)%nat ->
+  (0 < jw)%N -> (0 < jr)%N -> (0 < rbuf)%N -> (rbuf mod 8 = 0)%N ->
+  let B := h_bsize c in let hash := block_hash (h_ck c) in
+  exists s1 s2 frames,
+    do_writes B jw hw (init_w jw) ws = (s1, true) /\
+    w_close B jw hw (fun _ => false) s1 false false = (s2, false) /\
+    parse_stream_e hash evalid tvalid nframes rbuf sched (write_stream_e hash c (map snd (w_out s2))) = Some (norm_cfg c, frames) /\
+    fst (do_reads B jr hr (init_r (map frame_of frames)) ns) = spec_reads (concat ws) ns.
+Proof.
+  intros evalid tvalid c jw hw jr hr ws ns nframes rbuf sched Hc Het Hbs.
+  exact (end_to_end_range_128 (block_hash (h_ck c)) evalid tvalid c jw hw jr hr ws ns nframes rbuf sched Hc Het Hbs
+           (block_hash_32 (h_ck c)) (block_hash_64 (h_ck c))).
+Qed.
+Print Assumptions C01_end_to_end_range_128M_xxhash.
+
+Theorem C01_container_range_roundtrip_128M : forall (hash : list N -> N) (evalid tvalid : N -> bool) c blocks nframes rbuf sched,
+  cfg_ok evalid tvalid c -> h_etype c = RANGE_TYPE -> (h_bsize c <= 134217728)%N ->
+  (h_ck c = 1%N -> forall l, (hash l < 2 ^ 32)%N) -> (h_ck c = 2%N -> forall l, (hash l < 2 ^ 64)%N) ->
+  Forall (blk_ok (h_bsize c)) blocks -> (length blocks < nframes)%nat -> (0 < rbuf)%N -> (rbuf mod 8 = 0)%N ->
+  parse_stream_e hash evalid tvalid nframes rbuf sched (write_stream_e hash c blocks) = Some (norm_cfg c, map PData blocks ++ [PEnd]).
+Proof. exact container_range_roundtrip_128. Qed.
+Print Assumptions C01_container_range_roundtrip_128M.
+
 (* the premises are satisfiable, and the model runs: one checksummed RANGE stream of one 26-byte block *)
 Example C01_range_stream_instance :
   let blk := [104; 101; 108; 108; 111; 32; 104; 101; 108; 108; 111; 32; 119; 111; 114; 108; 100; 33; 33; 33; 0; 255; 104; 104; 101; 101]%N in
